@@ -303,6 +303,63 @@ def _replay_cache_all(path, cls):
         return dict(confirmed=False, raised=repr(e)[:300])
 
 
+def ob_cache_foreign():
+    """a @cache_computed_values method (and what it calls on self) must not read the state of ANOTHER object through self -- `self.<object>.<attribute>` with
+    <object> a public attribute or property (model, material, mesh, ...): the memo key cannot see such state and a change of it only raises the update flag of
+    the simulation, it does not clear the memo.  Private array fields of self (`self.__connect.shape`) are the class's own state (rule I_cache.all)."""
+    n, report = 0, []
+    for path, cls in _cached_classes():
+        if cls in ("HyperElasticState", "_StrainPathState"):
+            continue
+        by = {}
+        for name, which, fn, decs in eff.methods_of(path, cls):
+            by.setdefault(name, []).append((which, fn, decs))
+        cached = [nm for nm, lst in by.items() if any("cache_computed_values" in d for _, _, decs in lst for d in decs)]
+        seen, todo = set(), list(cached)
+        while todo:
+            m = todo.pop()
+            if m in seen or m not in by:
+                continue
+            seen.add(m)
+            for which, fn, decs in by[m]:
+                if which == "setter":
+                    continue
+                for node in ast.walk(fn.node):
+                    if isinstance(node, ast.Attribute) and isinstance(node.value, ast.Name) and node.value.id == "self":
+                        todo.append(node.attr)
+        for m in sorted(seen):
+            for which, fn, decs in by[m]:
+                if which == "setter":
+                    continue
+                for node in ast.walk(fn.node):
+                    n += 1
+                    if isinstance(node, ast.Attribute) and isinstance(node.value, ast.Attribute) and isinstance(node.value.value, ast.Name) and node.value.value.id == "self" \
+                            and isinstance(node.ctx, ast.Load) and not (node.value.attr.startswith("__") and not node.value.attr.endswith("__")):
+                        obj, att = node.value.attr, node.attr
+                        rep = _replay_foreign(cls, obj, att)
+                        raise Refuted(f"{cls}.{m} is reached from the @cache_computed_values methods {cached} and reads `self.{obj}.{att}` (line {node.lineno}): state of another object "
+                                      f"that the memo key does not contain; changing it leaves the memoised value stale", cex=dict(cls=cls, method=m, read=f"self.{obj}.{att}", line=node.lineno),
+                                      signature=f"I_cache.foreign:{cls}:{obj}.{att}", replay=rep)
+        report.append(f"{cls}: {len(cached)} cached, {len(seen)} reachable methods")
+    if n == 0:
+        raise Unsupported("no cached method found (vacuous)")
+    return Verdict(DISCHARGED, backend="AST scan of the cached methods and the methods they reach on self", sub=n, detail="; ".join(report))
+
+
+def _replay_foreign(cls, obj, att):
+    """native witness when the foreign read is a model attribute of the hyperelastic simulation: change it and compare the mass matrix with a fresh simulation's."""
+    try:
+        if cls == "HyperElastic" and att in ("thickness",):
+            def ch(mesh, sm):
+                sm.material.thickness = 5.0
+                return dict(thickness=5.0)
+            e = _he_mass(ch)
+            return dict(confirmed=bool(e > 1e-10), mass_rel_diff=e)
+        return dict(confirmed=False, note="no native witness is generated for this read; the obligation that passed on the unchanged tree now fails")
+    except Exception as ex:
+        return dict(confirmed=False, raised=repr(ex)[:300])
+
+
 def ob_cache_observed():
     """classes with cached methods that observe a mesh: every path of `_Update` taken for a Mesh notification clears the cached values (cached methods keyed on element
     groups read the groups' geometry, which the key cannot see)."""
@@ -327,12 +384,13 @@ def ob_cache_observed():
 
 
 def _he_mass(change):
+    """`change(mesh, simu)` mutates the mesh or the simulation / its model and returns the keyword arguments a fresh simulation in the final configuration is built with."""
     import contextlib, io
     from EasyFEA import Models, Simulations, AlgoType
 
-    def mk(mesh):
-        sm = Simulations.HyperElastic(mesh, Models.HyperElastic.NeoHookean(2, K=10.0), verbosity=False)
-        sm.rho = 2.0
+    def mk(mesh, thickness=1.0, rho=2.0, K=10.0):
+        sm = Simulations.HyperElastic(mesh, Models.HyperElastic.NeoHookean(2, K=K, thickness=thickness), verbosity=False)
+        sm.rho = rho
         sm.Solver_Set_Hyperbolic_Algorithm(0.1, algo=AlgoType.midpoint)
         c_ = np.asarray(mesh.coord)
         sm.add_dirichlet(np.where(np.isclose(c_[:, 0], c_[:, 0].min()))[0], [0, 0], ["x", "y"])
@@ -343,10 +401,10 @@ def _he_mass(change):
         sm = mk(mesh)
         sm.Solve()
         sm.Get_K_C_M_F()
-        change(mesh)
+        kw = change(mesh, sm) or {}
         sm.Solve()
         M1 = sm.Get_K_C_M_F()[2].toarray()
-        fr = mk(mesh)
+        fr = mk(mesh, **kw)
         fr.Solve()
         M2 = fr.Get_K_C_M_F()[2].toarray()
     return float(np.abs(M1 - M2).max() / np.abs(M2).max())
@@ -354,7 +412,7 @@ def _he_mass(change):
 
 def _replay_he_mass():
     try:
-        def ch(mesh):
+        def ch(mesh, sm):
             mesh.coord = 2 * np.asarray(mesh.coord)
         e = _he_mass(ch)
         return dict(confirmed=bool(e > 1e-10), mass_rel_diff=e, note="dynamic hyperelastic simulation, mesh.coord doubled in place, mass matrix vs fresh simulation")
@@ -363,12 +421,23 @@ def _replay_he_mass():
 
 
 def ob_he_mass(opname):
-    ops = dict(coord=lambda m: setattr(m, "coord", 2 * np.asarray(m.coord)), rotate=lambda m: m.Rotate(30.0), symmetry=lambda m: m.Symmetry((0.1, 0, 0), (1, 0.5, 0)),
-               stretch=lambda m: setattr(m, "coord", np.asarray(m.coord) * np.array([1.5, 0.8, 1.0])))
+    def thick(m, sm):
+        sm.material.thickness = 5.0
+        return dict(thickness=5.0)
+
+    def dens(m, sm):
+        sm.rho = 3.1
+        return dict(rho=3.1)
+
+    def bulk(m, sm):
+        sm.material.K = 23.0
+        return dict(K=23.0)
+    ops = dict(coord=lambda m, sm: setattr(m, "coord", 2 * np.asarray(m.coord)), rotate=lambda m, sm: m.Rotate(30.0), symmetry=lambda m, sm: m.Symmetry((0.1, 0, 0), (1, 0.5, 0)),
+               stretch=lambda m, sm: setattr(m, "coord", np.asarray(m.coord) * np.array([1.5, 0.8, 1.0])), thickness=thick, rho=dens, K=bulk)
     e = _he_mass(ops[opname])
     if e > 1e-10:
-        raise Refuted(f"dynamic hyperelastic simulation: after `{opname}` on its mesh the mass matrix differs from a fresh simulation's by {e:.3e} (stale cached element mass)", cex=dict(operation=opname),
-                      signature="history:hyperelastic:mass", replay=dict(confirmed=True, rel_diff=e))
+        raise Refuted(f"dynamic hyperelastic simulation: after `{opname}` the assembled mass matrix differs from a fresh simulation's in the final configuration by {e:.3e} (stale cached element matrix)",
+                      cex=dict(operation=opname), signature="history:hyperelastic:mass", replay=dict(confirmed=True, rel_diff=e))
     return Verdict(DISCHARGED, backend="native run vs fresh simulation")
 
 
@@ -881,9 +950,11 @@ def build(tier, seed):
                   clause="public model attributes assigned in constructors are parameter descriptors or flag-raising properties"))
     obs.append(Ob("C14.I_cache.all", ob_cache_all, (), "E", ("EasyFEA/**::@cache_computed_values",),
                   clause="every class with cached methods: a store to a field the cached methods read is accompanied by clearing the cache, on every path of every method"))
+    obs.append(Ob("C14.I_cache.foreign", ob_cache_foreign, (), "E", ("EasyFEA/**::@cache_computed_values",),
+                  clause="no memoised method reads the state of another object (self.<object>.<attribute>) that its key does not contain"))
     obs.append(Ob("C14.I_cache.observed", ob_cache_observed, (), "E", (f"{SIMU}::_Simu._Update",), clause="a mesh notification clears the values cached from element-group geometry"))
-    for opname in ("coord", "rotate", "symmetry", "stretch"):
-        obs.append(Ob(f"C14.history.hyperelastic.mass.{opname}", ob_he_mass, (opname,), "X", ("EasyFEA/Simulations/_hyperelastic.py::HyperElastic.__Mass_e",), bound="one 4-element patch", clause="mass matrix after an in-place mesh change == fresh simulation's"))
+    for opname in ("coord", "rotate", "symmetry", "stretch", "thickness", "rho", "K"):      # K: the mass must not change
+        obs.append(Ob(f"C14.history.hyperelastic.mass.{opname}", ob_he_mass, (opname,), "X", ("EasyFEA/Simulations/_hyperelastic.py::HyperElastic.__Mass_e",), bound="one 4-element patch", clause="mass matrix after an in-place mesh change / a thickness, density or modulus change == fresh simulation's in the final configuration"))
     for seq in (("start", "add_dirichlet"), ("start", "bc_init_readd_without_connection"), ("start", "bc_init_readd"), ("start", "add_dirichlet", "bc_init_readd_without_connection")):
         obs.append(Ob("C14.history.beam.lagrange." + ".".join(seq[1:]), ob_beam_lagrange, (seq,), "X", (f"{SIMU}::_Simu._Bc_Add_Dirichlet", f"{SIMU}::_Simu.Bc_Init", f"{SIMU}::_Simu._Bc_Lagrange_dim"),
                       bound="one 2-beam frame", clause="changing the set of conditions around multiplier constraints: next solve == fresh simulation's"))
